@@ -51,6 +51,7 @@
    module-level names, block names unique per function and distinct from the value names of
    that function (ppci: SubRoutine.defined_names is shared), module-level names unique, blocks
    non-empty and ending in their only terminator.
+   Constructor invariants of ppci.ir: [vref_ty f r], [ctor_ok_instr f i], [ctor_ok_modul m : bool].
    Printing: ToVal instances; [toval m] equals vlib.to_val(irimport.module_to_py(m)).
    No proofs about ppci here. *)
 From PV Require Import Lib.Py Lib.Val.
@@ -331,6 +332,33 @@ Definition wf_gvar (gnames : list string) (g : gvar) : bool :=
 Definition wf_modul (m : modul) : bool :=
   let gn := global_names m in
   nodup_str gn && forallb (wf_gvar gn) (m_vars m) && forallb (wf_func gn) (m_funcs m).
+
+(* ------------------------------------------------------------------ constructor invariants
+   What the constructors of ppci.ir enforce (so every live ppci module satisfies it unless it
+   was mutated afterwards): operand types of Binop/Unop/Phi, ptr-typed addresses and callees,
+   AddressOf of a blob, Load of a non-blob type, Alloc of at least one byte, LiteralData = bytes.
+   [vref_ty f r] = the ir type of the value r refers to inside f (module-level values are ptr). *)
+Definition vref_ty (f : func) (r : vref) : ty :=
+  match r with
+  | Loc v => match find_def f v with Some d => def_ty d | None => Ptr end
+  | Param n => match nth_error (f_params f) n with Some p => snd p | None => Ptr end
+  | Glob _ | Unres _ => Ptr
+  end.
+Definition ctor_ok_instr (f : func) (i : instr) : bool :=
+  match i with
+  | ILoad _ _ t a _ => ty_eqb (vref_ty f a) Ptr && negb (ty_is_blob t)
+  | IStore _ a _ => ty_eqb (vref_ty f a) Ptr
+  | IAlloc _ _ s _ => negb (s =? 0)
+  | IAddrOf _ _ a => ty_is_blob (vref_ty f a)
+  | IBinop _ _ t _ a b => ty_eqb (vref_ty f a) t && ty_eqb (vref_ty f b) t
+  | IUnop _ _ t _ a => ty_eqb (vref_ty f a) t
+  | IPhi _ _ t ins => forallb (fun p => ty_eqb (vref_ty f (snd p)) t) ins
+  | ICallF _ _ _ c _ | ICallP c _ => ty_eqb (vref_ty f c) Ptr
+  | ILit _ _ d => all_byte d
+  | _ => true
+  end.
+Definition ctor_ok_func (f : func) : bool := forallb (ctor_ok_instr f) (func_instrs f).
+Definition ctor_ok_modul (m : modul) : bool := forallb ctor_ok_func (m_funcs m).
 
 (* ------------------------------------------------------------------ printing (ToVal) *)
 Definition ty_val (t : ty) : val :=
